@@ -4,6 +4,7 @@ package props
 import (
 	"encoding/json"
 	"fmt"
+	"hash/fnv"
 	"sort"
 	"strings"
 
@@ -35,9 +36,9 @@ type Op struct {
 	GlobalLoader bool        `json:"global_loader,omitempty"` // leave ExpandOptions.PathLoader nil: the package-level loader serves the call
 	LoaderTag    string      `json:"loader_tag,omitempty"`
 	KeepRoot     bool        `json:"keep_root,omitempty"` // C16: the root object decoded for an earlier call of this history is passed again (same in-memory object)
-	Install      bool        `json:"install,omitempty"` // C16: (re)assign spec.PathLoader before this call (a fresh process always does) // C16: install a new package-level loader function before this call
-	Faults       []sim.Fault `json:"faults,omitempty"`  // faults active during this call only (C16)
-	Pre          []string    `json:"pre,omitempty"`     // URLs pre-loaded into the cache (C18)
+	Install      bool        `json:"install,omitempty"`   // C16: (re)assign spec.PathLoader before this call (a fresh process always does) // C16: install a new package-level loader function before this call
+	Faults       []sim.Fault `json:"faults,omitempty"`    // faults active during this call only (C16)
+	Pre          []string    `json:"pre,omitempty"`       // URLs pre-loaded into the cache (C18)
 }
 
 // Mut replaces the document at URL.
@@ -194,10 +195,53 @@ func DecodeRoot(w *model.World) (*spec.Swagger, error) {
 		return nil, err
 	}
 	sw := new(spec.Swagger)
+	if h := fnv.New32a(); true {
+		// one root in five is decoded into an object that held another document before (a caller
+		// re-loading its specification into the same variable): the older document has every named
+		// member of this one plus a twin "<name>x" of each, which must be gone afterwards
+		_, _ = h.Write(b)
+		if h.Sum32()%5 == 0 {
+			if old, err := json.Marshal(withTwins(w.Docs[w.Root])); err == nil {
+				_ = json.Unmarshal(old, sw)
+			}
+		}
+	}
 	if err := json.Unmarshal(b, sw); err != nil {
 		return nil, err
 	}
 	return sw, nil
+}
+
+// withTwins returns a copy of a Swagger document in which every definition, parameter, response
+// and path has a twin named "<name>x" with other content, and the document other extensions.
+func withTwins(d interface{}) interface{} {
+	c, ok := model.CloneJSON(d).(map[string]interface{})
+	if !ok {
+		return d
+	}
+	for _, sec := range []string{"definitions", "parameters", "responses", "paths"} {
+		m, ok := c[sec].(map[string]interface{})
+		if !ok {
+			continue
+		}
+		for _, k := range keys(m) {
+			switch sec {
+			case "definitions":
+				m[k+"x"] = map[string]interface{}{"type": "string", "description": "left over from the document decoded before"}
+			case "parameters":
+				m[k+"x"] = map[string]interface{}{"name": "stale", "in": "query", "type": "string"}
+			case "responses":
+				m[k+"x"] = map[string]interface{}{"description": "left over from the document decoded before"}
+			case "paths":
+				if strings.HasPrefix(k, "/") {
+					m[k+"x"] = map[string]interface{}{"get": map[string]interface{}{"responses": map[string]interface{}{"200": map[string]interface{}{"description": "stale"}}}}
+				}
+			}
+		}
+	}
+	c["x-stale"] = "left over from the document decoded before"
+	c["host"] = "stale.example.com"
+	return c
 }
 
 // ExpandWorld runs ExpandSpec on the root of w with all other documents (and the root itself)
